@@ -2,11 +2,13 @@
 # usage: seedrun.sh <patch.diff> <check-id>...   : apply a seeded change to /repo, run the quick checks, undo.
 # Each check runs first at plain quick depth (CPF_NO_ADAPTIVE=1); when that misses, again with the adaptive
 # depth the registered command has (changed functions deepen the generators).
+# With CPF_REPO set (a scratch worktree of the repository) the patch is applied there and the checks read that tree.
 P="$1"; shift
-cd /repo || exit 2
+R="${CPF_REPO:-/repo}"
+cd "$R" || exit 2
 if [ -n "$(git status --porcelain --untracked-files=no)" ]; then echo "repo not clean"; exit 2; fi
 git apply "$P" || { echo "patch does not apply"; exit 2; }
-trap 'git -C /repo checkout -- . ' EXIT
+trap 'git -C "$R" checkout -- . ' EXIT
 cd /verif
 for id in "$@"; do
   echo "--- $id (plain quick)"
